@@ -42,14 +42,14 @@ _STATE = ("distinct_nontrivial counts DISTINCT (operation kind, abstract state) 
           "only runs that had a resize in flight at some step contribute (a run that never left the un-split state is trivial).")
 
 RULES = {
-    "C01": "Seeded histories over the map API (fault-free configuration) against an identity-level BTreeMap model; every return value, then len/is_empty/sorted iter()/get of every key after every step. " + _STATE,
+    "C01": "Seeded histories over the map API (fault-free except for iterators that lie in size_hint) against an identity-level BTreeMap model; every return value, then len/is_empty/sorted iter()/get of every key after every step. " + _STATE,
     "C02": "Seeded histories; per call the simulator's work clock (hash computations counted by the hasher seam, table allocations counted by the allocator seam, elements moved read through the hook) is compared with the stated bounds. " + _STATE,
     "C03": "Seeded histories; a countdown ceil(L/R) is armed when a resize starts and the number of live table allocations is compared with the hook state after every step. " + _STATE,
     "C04": "Seeded histories biased to churn, shrink_to/reserve mid-resize and emptied old tables; capacity()>=len() and the headroom invariant after every step, and every run ends with the fill-to-capacity probe. " + _STATE,
     "C05": "Union workload (maps and sets, all element classes, cancellation of lazy operations) under ASan and the dev profile with liveness/canary element types and the cached-iterator agreement invariant after every step. " + _STATE,
     "C06": "Tracked elements; panic-free histories with drain/drain_filter/into_iter dropped or forgotten after k steps; ledger of object ids (exactly-once drop, no leak) after every step and at teardown. " + _STATE,
     "C07": "For each explored (state, operation): dry run records the user callbacks performed, then one execution per callback with a panic injected at exactly that callback; distinct_nontrivial counts DISTINCT (operation kind, callback site, abstract state) triples whose crash points were enumerated.",
-    "C08": "Seeded histories; iterators of every kind checked for exact len/size_hint at every step, fusedness, clone independence; drain/into_iter consumed, dropped or forgotten after k steps. " + _STATE,
+    "C08": "Seeded histories; iterators of every kind checked for exact len/size_hint at every step, fusedness, clone independence; drain/into_iter consumed, dropped or forgotten after k steps (every k in enumerated small states); one run in three first injects a panic into a user callback and then judges the iterators against what lookups find. " + _STATE,
     "C09": "Seeded histories; predicates are explicit key subsets (none/all/random/exactly the old table/exactly the main table) with optional value mutation; call log, yielded set and remainder compared. " + _STATE,
     "C10": "In sampled states every boundary argument of the enumerated set is applied to reserve/try_reserve (with and without simulated allocation failure)/shrink_to, each from a rebuilt copy of the state, followed by the fill probe; distinct_nontrivial counts DISTINCT (operation, argument class, abstract state) triples.",
     "C11": "Two or three maps with different hasher seeds driven into independent phases; clone/clone_from between them, then divergent histories against separate models. " + _STATE,
